@@ -1,3 +1,4 @@
+import BlockCiphers.Proofs.Kuznyechik
 import BlockCiphers.Proofs.AesNi
 import BlockCiphers.Proofs.AesNiBytes
 import BlockCiphers.Gen.Decls
@@ -8,6 +9,98 @@ and is proved by applying it.  ONLY property theorems and non-vacuity examples l
 AES-NI model: Enc/Dec/combined, clones and conversions all compute the combined cipher's functions; union-arm discipline of the autodetect
 wrappers over the source.  Kuznyechik routes: by correspondence (14 routes x 3 backends) until its model is merged.
 -/
+
+namespace BC.Kuznyechik.Compact
+open BC.Spec.Kuznyechik
+/-- conversions keep the round keys: the converted instances run the same functions on the same keys -/
+theorem C12.kuz_compact_conv_keys (e : EncKeys) : (EncDecKeys.fromEnc e).keys = e.keys ∧ (DecKeys.fromEnc e).keys = e.keys :=
+  _root_.BC.Kuznyechik.Compact.conv_keys e
+end BC.Kuznyechik.Compact
+
+namespace BC.Kuznyechik.Compact
+open BC.Spec.Kuznyechik
+/-- `Kuznyechik::from(KuznyechikEnc::new(key))` and `KuznyechikDec::from(…)`: decrypting with the converted keys inverts
+encrypting with the encrypt-only keys (and with the combined keys) -/
+theorem C12.kuz_compact_conv_roundtrip (key : BitVec 256) (b : BitVec 128) :
+    decrypt_block (DecKeys.fromEnc (EncKeys.new key)).keys (encrypt_block (EncKeys.new key).keys b) = b ∧
+    decrypt_block (EncDecKeys.fromEnc (EncKeys.new key)).keys (encrypt_block (EncKeys.new key).keys b) = b ∧
+    encrypt_block (EncKeys.new key).keys (decrypt_block (DecKeys.fromEnc (EncKeys.new key)).keys b) = b :=
+  _root_.BC.Kuznyechik.Compact.conv_roundtrip key b
+end BC.Kuznyechik.Compact
+
+namespace BC.Kuznyechik.Soft
+open BC.Spec.Kuznyechik
+/-- the combined type keeps the encryption keys and stores the same decryption keys as the decrypt-only type -/
+theorem C12.kuz_soft_conv_keys (e : EncKeys) :
+    (EncDecKeys.fromEnc e).enc = e.keys ∧ (EncDecKeys.fromEnc e).dec = (DecKeys.fromEnc e).keys ∧
+    (DecKeys.fromEnc e).keys = inv_enc_keys e.keys :=
+  _root_.BC.Kuznyechik.Soft.conv_keys e
+end BC.Kuznyechik.Soft
+
+namespace BC.Kuznyechik.Soft
+open BC.Spec.Kuznyechik
+/-- every route to an encrypting / decrypting instance computes the compact (= standard) function -/
+theorem C12.kuz_soft_conv_enc (key : BitVec 256) (b : BitVec 128) :
+    encrypt_block (EncDecKeys.fromEnc (EncKeys.new key)).enc b = Compact.encrypt_block (Compact.expand key) b ∧
+    encrypt_block (EncKeys.new key).keys b = Compact.encrypt_block (Compact.expand key) b :=
+  _root_.BC.Kuznyechik.Soft.conv_enc key b
+end BC.Kuznyechik.Soft
+
+namespace BC.Kuznyechik.Soft
+open BC.Spec.Kuznyechik
+theorem C12.kuz_soft_conv_dec (key : BitVec 256) (b : BitVec 128) :
+    decrypt_block (EncDecKeys.fromEnc (EncKeys.new key)).dec b = Compact.decrypt_block (Compact.expand key) b ∧
+    decrypt_block (DecKeys.fromEnc (EncKeys.new key)).keys b = Compact.decrypt_block (Compact.expand key) b :=
+  _root_.BC.Kuznyechik.Soft.conv_dec key b
+end BC.Kuznyechik.Soft
+
+namespace BC.Kuznyechik.Sse2
+open BC.Spec.Kuznyechik
+theorem C12.kuz_sse2_conv_keys (e : EncKeys) :
+    (EncDecKeys.fromEnc e).enc = e.keys ∧ (EncDecKeys.fromEnc e).dec = (DecKeys.fromEnc e).keys ∧
+    (DecKeys.fromEnc e).keys = inv_enc_keys e.keys :=
+  _root_.BC.Kuznyechik.Sse2.conv_keys e
+end BC.Kuznyechik.Sse2
+
+namespace BC.Kuznyechik.Sse2
+open BC.Spec.Kuznyechik
+theorem C12.kuz_sse2_conv_enc (key : BitVec 256) (b : BitVec 128) :
+    encrypt_block (EncDecKeys.fromEnc (EncKeys.new key)).enc b = Compact.encrypt_block (Compact.expand key) b ∧
+    encrypt_block (EncKeys.new key).keys b = Compact.encrypt_block (Compact.expand key) b :=
+  _root_.BC.Kuznyechik.Sse2.conv_enc key b
+end BC.Kuznyechik.Sse2
+
+namespace BC.Kuznyechik.Sse2
+open BC.Spec.Kuznyechik
+theorem C12.kuz_sse2_conv_dec (key : BitVec 256) (b : BitVec 128) :
+    decrypt_block (EncDecKeys.fromEnc (EncKeys.new key)).dec b = Compact.decrypt_block (Compact.expand key) b ∧
+    decrypt_block (DecKeys.fromEnc (EncKeys.new key)).keys b = Compact.decrypt_block (Compact.expand key) b :=
+  _root_.BC.Kuznyechik.Sse2.conv_dec key b
+end BC.Kuznyechik.Sse2
+
+namespace BC.Kuznyechik.Neon
+open BC.Spec.Kuznyechik
+theorem C12.kuz_neon_conv_keys (e : EncKeys) :
+    (EncDecKeys.fromEnc e).enc = e.keys ∧ (EncDecKeys.fromEnc e).dec = (DecKeys.fromEnc e).keys ∧
+    (DecKeys.fromEnc e).keys = inv_enc_keys e.keys :=
+  _root_.BC.Kuznyechik.Neon.conv_keys e
+end BC.Kuznyechik.Neon
+
+namespace BC.Kuznyechik.Neon
+open BC.Spec.Kuznyechik
+theorem C12.kuz_neon_conv_enc (key : BitVec 256) (b : BitVec 128) :
+    encrypt_block (EncDecKeys.fromEnc (EncKeys.new key)).enc b = Compact.encrypt_block (Compact.expand key) b ∧
+    encrypt_block (EncKeys.new key).keys b = Compact.encrypt_block (Compact.expand key) b :=
+  _root_.BC.Kuznyechik.Neon.conv_enc key b
+end BC.Kuznyechik.Neon
+
+namespace BC.Kuznyechik.Neon
+open BC.Spec.Kuznyechik
+theorem C12.kuz_neon_conv_dec (key : BitVec 256) (b : BitVec 128) :
+    decrypt_block (EncDecKeys.fromEnc (EncKeys.new key)).dec b = Compact.decrypt_block (Compact.expand key) b ∧
+    decrypt_block (DecKeys.fromEnc (EncKeys.new key)).keys b = Compact.decrypt_block (Compact.expand key) b :=
+  _root_.BC.Kuznyechik.Neon.conv_dec key b
+end BC.Kuznyechik.Neon
 
 namespace BC.AesNi
 open BC BC.X86 BC.Spec.Aes
